@@ -364,6 +364,63 @@ func init() {
 			return "", ""
 		}
 	}
+	opsTable["startswith"] = func(ws []string) (string, string, judgeFn) {
+		a, ok := args(ws, 2)
+		if !ok {
+			return bad()
+		}
+		str, pre := a[0], a[1]
+		out := hx.CallSync(func() string {
+			if cmsys.StrcaseStartsWith(cp(str), cp(pre)) {
+				return "1"
+			}
+			return "0"
+		})
+		// reference: strncasecmp(str, prefix, len(prefix)) == 0 on the bytes, ASCII letters fold, nothing else does
+		fold := func(c byte) byte {
+			if c >= 'A' && c <= 'Z' {
+				return c + 32
+			}
+			return c
+		}
+		want := "1"
+		if len(str) < len(pre) {
+			want = "0"
+		} else {
+			for i := range pre {
+				if fold(str[i]) != fold(pre[i]) {
+					want = "0"
+					break
+				}
+			}
+		}
+		cls := "ne"
+		if want == "1" {
+			cls = "eq"
+		} else if len(str) >= len(pre) {
+			for i := range pre { // differs from a match only in bit 5 of non-letters?
+				if str[i] != pre[i] && (str[i]^pre[i])&^0x20 == 0 && fold(str[i]) != fold(pre[i]) {
+					cls = "ne-bit5"
+				}
+			}
+		}
+		return out, "startswith:" + cls, func(out string) (string, string) {
+			if out != want {
+				return "fold:startswith", fmt.Sprintf("StrcaseStartsWith(%q,%q)=%s, strncasecmp over the bytes says %s", str, pre, out, want)
+			}
+			// libc itself, where C strings can express the case (no NUL inside the compared part)
+			if len(str) >= len(pre) && !hasNul(pre) && !hasNul(str[:len(pre)]) {
+				lw := "0"
+				if libcStrncasecmp(str, pre, len(pre)) == 0 {
+					lw = "1"
+				}
+				if out != lw {
+					return "fold:startswith", fmt.Sprintf("StrcaseStartsWith(%q,%q)=%s, libc strncasecmp says %s", str, pre, out, lw)
+				}
+			}
+			return "", ""
+		}
+	}
 	opsTable["subjectex"] = func(ws []string) (string, string, judgeFn) {
 		s, ok := one(ws)
 		if !ok || len(s) != ptttype.TTLEN+1 {
@@ -558,6 +615,44 @@ func genGroup3() {
 		do("dbcsstatus "+itoa(r.Intn(len(s)+2)-1)+" "+h, true)
 		do("trimdbcs "+h, true)
 		do("trim "+hx.Hex(append(s, r.Bytes(r.Intn(4), []byte{' ', ' ', 0})...)), true)
+	}
+	// --- StrcaseStartsWith: every pair of single bytes; every byte value at every position of the three prefixes ---
+	for x := 0; x < 256; x++ {
+		hxs := hx.Hex([]byte{byte(x)})
+		for y := 0; y < 256; y++ {
+			do("startswith "+hxs+" "+hx.Hex([]byte{byte(y)}), true)
+		}
+	}
+	prefixes := [][]byte{ptttype.STR_REPLY, ptttype.STR_FORWARD, ptttype.STR_LEGACY_FORWARD}
+	for _, pf := range prefixes {
+		for pos := range pf {
+			for x := 0; x < 256; x++ {
+				v := cp(pf)
+				v[pos] = byte(x)
+				do("startswith "+hx.Hex(append(cp(v), ' ', 'h', 'i'))+" "+hx.Hex(pf), true)
+				// the same variant as a title: differs from the genuine prefix in one byte (all 8 single-bit flips
+				// are among them, bit 5 in particular: '[' / '{', ':' / 0x1a, 0xc2 / 0xe2 ...)
+				do("subjectex "+title(append(cp(v), ' ', 'h', 'i')), true)
+			}
+		}
+		do("startswith "+hx.Hex(pf[:len(pf)-1])+" "+hx.Hex(pf), true) // shorter than the prefix
+		do("startswith - "+hx.Hex(pf), true)
+		do("startswith "+hx.Hex(pf)+" -", true)
+	}
+	for i := 0; i < pick(2000, 40000); i++ {
+		pf := cp(prefixes[r.Intn(3)])
+		if r.Bool() {
+			pf = r.Bytes(1+r.Intn(6), textAlpha)
+		}
+		s := flipCase(r, pf)
+		for k := 0; k < r.Intn(3); k++ { // a few bytes changed in one bit
+			s[r.Intn(len(s))] ^= 1 << uint(r.Intn(8))
+		}
+		s = append(s, r.Bytes(r.Intn(4), textAlpha)...)
+		if r.Intn(5) == 0 {
+			s = s[:r.Intn(len(s)+1)]
+		}
+		do("startswith "+hx.Hex(s)+" "+hx.Hex(pf), true)
 	}
 	// --- SubjectEx ---
 	toks := [][]byte{
